@@ -78,7 +78,7 @@ theorem canonicalOk_outs {J : Type} (ns : Array (WNode J)) (hw : WellIdx (shapes
           | some j' =>
             rw [hl] at hsh
             simp only [Sh.un.injEq] at hsh
-            simp only [kidsMatch, hsh]
+            simp only [kidsMatch]
         | bin j k =>
           simp only [] at hU
           unfold Out.shape at hsh
@@ -92,7 +92,7 @@ theorem canonicalOk_outs {J : Type} (ns : Array (WNode J)) (hw : WellIdx (shapes
             | some k' =>
               rw [hl, hr] at hsh
               simp only [Sh.bin.injEq] at hsh
-              simp only [kidsMatch, hsh.1, hsh.2, and_self]
+              simp only [kidsMatch, and_self]
 
 #print axioms canonicalOk_outs
 
